@@ -469,6 +469,13 @@ class Inliner:
             return None
         self.inlined.append((fi.qual, target.qual))
         stmts = self._fold_result_alias(st, stmts)
+        # the inlined code is located at the call site (its own line numbers
+        # belong to another function, possibly another file)
+        for s_ in pre + stmts:
+            for n_ in ast.walk(s_):
+                if hasattr(n_, "lineno"):
+                    n_.lineno = st.lineno
+                    n_.end_lineno = getattr(st, "end_lineno", st.lineno)
         return pre + stmts
 
     @staticmethod
@@ -553,6 +560,11 @@ class Inliner:
                 except NotInlinable:
                     return node
                 inl.inlined.append((fi.qual, target.qual))
+                for n_ in ast.walk(new):
+                    if hasattr(n_, "lineno"):
+                        n_.lineno = node.lineno
+                        n_.end_lineno = getattr(node, "end_lineno",
+                                                node.lineno)
                 changed[0] = True
                 return ast.copy_location(new, node)
 
